@@ -40,6 +40,7 @@ pub fn random_dyn(rng: &mut Rng, depth: u32, typed_only: bool) -> Dyn {
 
 pub fn tree_case(em: &mut Emitter, mode: u8, d: &Dyn) {
     let mut code: Vec<String> = Vec::new(); enc_dyn(d, &mut code);
+    let code_len = code.len();
     em.case(601, &[num_arg(mode), Ints(code)], || {
         let l = catch(|| d.encoded_len(modeof(mode)));
         let w = catch(|| { let mut v = Vec::new(); d.write_encoded(modeof(mode), &mut v).unwrap(); v });
@@ -47,7 +48,9 @@ pub fn tree_case(em: &mut Emitter, mode: u8, d: &Dyn) {
         match l { Some(n) => { obs = obs.n(R_OK).n(n); } None => { obs = obs.n(R_PANIC); } }
         match &w { Some(v) => { obs = obs.n(R_OK).bytes(v); } None => { obs = obs.n(R_PANIC); } }
         let exp = ref_encode(d, mode);
+        let short = if w.is_some() { catch(|| { let mut sw = ShortWriter { out: Vec::new(), k: 1 + code_len % 4 }; d.write_encoded(modeof(mode), &mut sw).map(|_| sw.out).ok() }) } else { None };
         let orc = match (l, &w, &exp) {
+            (Some(_), Some(v), Some(_)) if short != Some(Some(v.clone())) => Oracle::Fail("octets-differ-on-a-short-writing-target".into()),
             (Some(n), Some(v), Some(e)) => if n != v.len() { Oracle::Fail("announced-length-differs-from-written".into()) } else if v != e { Oracle::Fail("written-octets-differ-from-reference".into()) } else { Oracle::Pass },
             (None, None, None) => Oracle::Pass,
             (None, _, Some(_)) | (_, None, Some(_)) => Oracle::Fail("undocumented-panic".into()),
